@@ -127,6 +127,9 @@ func (m *c12mon) Check(s *sim.Sim, st *sim.Step) []*sim.Violation {
 		}
 		if accepted && a.Secret2 == "" && kind == "sms" {
 			m.stats.Count("sms-code-accepted")
+			if u := rec.Before.Users[U]; u != nil && !s.SMSSentTo(u.SMSPhone, a.Secret) {
+				vs = append(vs, vio("C12", "sms-code-of-another-account-accepted", "the SMS step of %q (number %q) accepted code %q, which was delivered to another phone", U, u.SMSPhone, a.Secret))
+			}
 			if rec.SessOut["sms_secret"] != "" {
 				vs = append(vs, vio("C12", "sms-code-survives-its-login", "the SMS code that completed the login of %q is still in the session afterwards", U))
 			}
@@ -262,7 +265,7 @@ var c12Profile = &sim.Profile{
 		"totp_validate": {"ok": 35, "wrong": 10, "recovery": 20, "recovery_spent": 15, "recovery_other": 10, "recovery_hash": 5, "empty": 5},
 		"sms_validate":  {"ok": 35, "wrong": 10, "recovery": 20, "recovery_spent": 15, "recovery_other": 10, "recovery_hash": 5, "empty": 5},
 	},
-	MinLen: 25, MaxLen: 55, Templates: c12Templates, TplProb: 0.6, NoiseProb: 0.1,
+	MinLen: 25, MaxLen: 55, Templates: append(append([]sim.Template(nil), c12Templates...), c02Templates[0], c02Templates[1], c02Templates[2]), TplProb: 0.6, NoiseProb: 0.1,
 }
 
 func init() {
